@@ -8,9 +8,12 @@ cd /verif
 TOOLS=$(dirname $(find $HOME/.rustup/toolchains/nightly-x86_64-unknown-linux-gnu -name llvm-profdata | head -1))
 rm -rf .work/cov .work/evidence_backup; mkdir -p .work/cov; cp -r evidence .work/evidence_backup
 props="$@"; [ -z "$props" ] && props="C01 C02 C03 C04 C05 C06 C07 C08 C09 C10 C11 C12 C13 C14 C15 C17 C18 C19 C20"
+# instrumented proc-macro / build scripts write profiles too: keep them out of /repo
+export LLVM_PROFILE_FILE=/verif/.work/cov/build-%p-%8m.profraw
 for p in $props; do VERIF_COVERAGE=1 ./check $p --tier quick 2>&1 | grep -E "^(OK|VIOLATION)" | head -1; done
 rm -rf evidence; cp -r .work/evidence_backup evidence
-$TOOLS/llvm-profdata merge -sparse .work/cov/*.profraw -o .work/cov/all.profdata || exit 2
+rm -f .work/cov/build-*.profraw /repo/default_*.profraw
+$TOOLS/llvm-profdata merge -sparse .work/cov/oracle-*.profraw -o .work/cov/all.profdata || exit 2
 OBJS=$(ls .work/cov/bins/* | sed 's/^/-object /' | tr '\n' ' ')
 BIN=$(ls .work/cov/bins/* | head -1)
 $TOOLS/llvm-cov report $BIN $OBJS -instr-profile=.work/cov/all.profdata --ignore-filename-regex='(\.cargo|rustc|/verif/)' > .work/cov/report.txt 2>&1
